@@ -16,18 +16,18 @@ import (
 // (fake Docker client -> dockerlog.Querier -> Engine.Eval -> renderResult) under every completion
 // order of the concurrent opens and repeatedly.
 type c18Case struct {
-	Ctrs   []c18Ctr `json:"ctrs"`
-	Metric *MExpr   `json:"metric,omitempty"`
+	Ctrs   []c18Ctr   `json:"ctrs"`
+	Metric *MExpr     `json:"metric,omitempty"`
 	Sel    []LMatcher `json:"sel,omitempty"`
-	Stages []LStage `json:"stages,omitempty"`
-	Start  int64    `json:"start"`
-	End    int64    `json:"end"`
-	Step   int64    `json:"step"`
-	Orders [][]int  `json:"orders"`
+	Stages []LStage   `json:"stages,omitempty"`
+	Start  int64      `json:"start"`
+	End    int64      `json:"end"`
+	Step   int64      `json:"step"`
+	Orders [][]int    `json:"orders"`
 	// Limit of a log query (0: none); with equal timestamps in several containers the limit cuts inside
 	// a tie, so the merge's tie-break (inventory order) is observable
 	Limit int `json:"limit,omitempty"`
-	Reps   int      `json:"reps"`
+	Reps  int `json:"reps"`
 }
 
 type c18Ctr struct {
@@ -425,7 +425,7 @@ func init() {
 			cj, _ := json.Marshal(k3)
 			c.Fail(Failure{Kind: "failing-input", Signature: "K3", What: "determinism at a sanitisation collision", Case: cj,
 				Request: `{container="k3"} over one container with Docker labels {"a.b":"dot","a-b":"dash"}, 60 runs`,
-				Impl: fmt.Sprintf("%d distinct answers", len(seen)), Model: "Docker.getLabels keeps the later key (C20_collision_witness); the runtime's map order decides which is later"})
+				Impl:    fmt.Sprintf("%d distinct answers", len(seen)), Model: "Docker.getLabels keeps the later key (C20_collision_witness); the runtime's map order decides which is later"})
 		}
 	}
 }
